@@ -145,6 +145,7 @@ type c16CGen struct {
 
 type c16CH struct {
 	fatalf  func(format string, args ...any)
+	names   []string // node name per instance (clones repeat a name)
 	log     *logrus.Logger
 	nn      int
 	gcfg    []c16CCfg // user groups; outbound id = index + 2
@@ -164,13 +165,28 @@ type c16CH struct {
 }
 
 func (h *c16CH) class(c string) { h.classes[c] = true }
+
+// name of node instance i. Instances are distinct *Dialer objects; a group with a
+// per-group check override holds its own clones, which carry the node's name
+// (ControlPlane clones dialers per group via CloneWithGlobalOptionContext), so
+// several instances may share one name. Reload matches by group name + node name.
+func (h *c16CH) name(i int) string {
+	if i < len(h.names) {
+		return h.names[i]
+	}
+	return fmt.Sprintf("n%d", i)
+}
 func (h *c16CH) logf(f string, a ...any) {
 	h.hist = append(h.hist, fmt.Sprintf(f, a...))
 }
 func (h *c16CH) cfgString() string {
 	var s []string
 	for i, c := range h.gcfg {
-		s = append(s, fmt.Sprintf("ob%d{%s/%d members=%v}", i+2, c.policy.Policy, c.policy.FixedIndex, c.members))
+		var ms []string
+		for _, m := range c.members {
+			ms = append(ms, fmt.Sprintf("#%d=%s", m, h.name(m)))
+		}
+		s = append(s, fmt.Sprintf("ob%d{%s/%d members=%v}", i+2, c.policy.Policy, c.policy.FixedIndex, ms))
 	}
 	return strings.Join(s, " ")
 }
@@ -212,7 +228,7 @@ func (h *c16CH) build() *c16CGen {
 		return dialer.NewDialer(direct.SymmetricDirect, opt, dialer.InstanceOption{DisableCheck: true}, &dialer.Property{Property: D.Property{Name: name}})
 	}
 	for i := 0; i < h.nn; i++ {
-		gen.nodes = append(gen.nodes, mk(fmt.Sprintf("n%d", i)))
+		gen.nodes = append(gen.nodes, mk(h.name(i)))
 	}
 	gen.extra = []*dialer.Dialer{mk("direct"), mk("block")}
 	fixed0 := outbound.DialerSelectionPolicy{Policy: consts.DialerSelectionPolicy_Fixed}
@@ -267,7 +283,7 @@ func (h *c16CH) verify() {
 		for dom := 0; dom < 6; dom++ {
 			for _, nt := range c16CTypes(dom) {
 				if got := d.MustGetAlive(nt); got != h.alive[n][dom] {
-					h.failf("node n%d %s alive=%v, model says %v", n, c16CDomNames[dom], got, h.alive[n][dom])
+					h.failf("node #%d %s alive=%v, model says %v", n, c16CDomNames[dom], got, h.alive[n][dom])
 				}
 			}
 		}
@@ -340,7 +356,7 @@ func (h *c16CH) verify() {
 
 func (h *c16CH) evForced(n, dom, variant int) {
 	types := c16CTypes(dom)
-	h.logf("forced n%d %s v%d", n, c16CDomNames[dom], variant%len(types))
+	h.logf("forced #%d %s v%d", n, c16CDomNames[dom], variant%len(types))
 	h.cur.nodes[n].ReportUnavailableForced(types[variant%len(types)], errors.New("proxy dial failed"))
 	if h.alive[n][dom] {
 		h.alive[n][dom] = false
@@ -357,7 +373,7 @@ func (h *c16CH) evTrafficFail(n, dom, variant, rep int) {
 		thr = 50
 	}
 	for i := 0; i < rep; i++ {
-		h.logf("traffic_fail n%d %s v%d (%d/%d)", n, c16CDomNames[dom], variant%len(types), i+1, rep)
+		h.logf("traffic_fail #%d %s v%d (%d/%d)", n, c16CDomNames[dom], variant%len(types), i+1, rep)
 		h.cur.nodes[n].ReportUnavailable(types[variant%len(types)], errors.New("i/o timeout"))
 		if h.alive[n][dom] {
 			h.tf[n][dom]++
@@ -372,7 +388,7 @@ func (h *c16CH) evTrafficFail(n, dom, variant, rep int) {
 }
 
 func (h *c16CH) evTrafficOK(n, dom int) {
-	h.logf("traffic_ok n%d %s", n, c16CDomNames[dom])
+	h.logf("traffic_ok #%d %s", n, c16CDomNames[dom])
 	h.cur.nodes[n].ReportAvailableTraffic(c16CType(dom))
 	h.tf[n][dom] = 0
 	if dom >= 4 {
@@ -385,7 +401,7 @@ func (h *c16CH) evTrafficOK(n, dom int) {
 }
 
 func (h *c16CH) evFallback(n, dom int, lat time.Duration) {
-	h.logf("reload_fallback n%d %s lat=%v", n, c16CDomNames[dom], lat)
+	h.logf("reload_fallback #%d %s lat=%v", n, c16CDomNames[dom], lat)
 	nt := c16CType(dom)
 	if lat > 0 {
 		h.cur.nodes[n].MustGetLatencies10(nt).AppendLatency(lat)
@@ -424,6 +440,13 @@ func (h *c16CH) evReload() {
 	old := h.cur
 	oldAlive := make([][6]bool, h.nn)
 	copy(oldAlive, h.alive)
+	for i := 0; i < h.nn; i++ {
+		for j := i + 1; j < h.nn; j++ {
+			if h.name(i) == h.name(j) && h.alive[i] != h.alive[j] {
+				h.class("reload_same_name_instances_differ")
+			}
+		}
+	}
 	next := h.build() // init callbacks announce every slot alive
 	overlap := next.cp.InheritDialerHealthFrom(old.cp)
 	if !overlap {
@@ -446,10 +469,10 @@ func (h *c16CH) evReload() {
 			switch {
 			case !inGroup[n]:
 				if !now {
-					h.failf("reload: ungrouped fresh node n%d %s is dead", n, c16CDomNames[dom])
+					h.failf("reload: ungrouped fresh node #%d %s is dead", n, c16CDomNames[dom])
 				}
 			case was && !now:
-				h.failf("reload: n%d %s was alive in the old generation but is dead in the new one", n, c16CDomNames[dom])
+				h.failf("reload: #%d %s was alive in the old generation but is dead in the new one", n, c16CDomNames[dom])
 			case !was && now:
 				justified := false
 				for _, cfg := range h.gcfg {
@@ -470,7 +493,7 @@ func (h *c16CH) evReload() {
 					}
 				}
 				if !justified {
-					h.failf("reload: n%d %s was dead, is alive in the new generation, and no group needed a floor", n, c16CDomNames[dom])
+					h.failf("reload: #%d %s was dead, is alive in the new generation, and no group needed a floor", n, c16CDomNames[dom])
 				}
 				h.class("reload_floor_revived_node")
 			}
@@ -479,7 +502,7 @@ func (h *c16CH) evReload() {
 		}
 		for idx, c := range h.cur.nodes[n].HealthSnapshot().Collections {
 			if c.FailCount != 0 || c.TrafficFailCount != 0 {
-				h.failf("reload: n%d collection %d inherited fail counts %d/%d", n, idx, c.FailCount, c.TrafficFailCount)
+				h.failf("reload: #%d collection %d inherited fail counts %d/%d", n, idx, c.FailCount, c.TrafficFailCount)
 			}
 		}
 	}
@@ -550,17 +573,31 @@ func (h *c16CH) start() {
 func c16CCase(t *rapid.T) {
 	dialer.ResetGlobalProxyStateForReload()
 	h := c16CNewH(t.Fatalf)
-	h.nn = rapid.IntRange(1, 4).Draw(t, "nodes")
+	nb := rapid.IntRange(1, 4).Draw(t, "nodes")
+	h.nn = nb
+	for i := 0; i < nb; i++ {
+		h.names = append(h.names, fmt.Sprintf("n%d", i))
+	}
 	ng := rapid.IntRange(1, 4).Draw(t, "groups")
 	for g := 0; g < ng; g++ {
 		var cfg c16CCfg
-		for n := 0; n < h.nn; n++ {
+		for n := 0; n < nb; n++ {
 			if rapid.Bool().Draw(t, "member") {
 				cfg.members = append(cfg.members, n)
 			}
 		}
 		if len(cfg.members) == 0 {
-			cfg.members = []int{rapid.IntRange(0, h.nn-1).Draw(t, "member1")}
+			cfg.members = []int{rapid.IntRange(0, nb-1).Draw(t, "member1")}
+		}
+		// a group with its own check option holds clones of its nodes: same names,
+		// separate Dialer objects with their own health history.
+		if rapid.IntRange(0, 2).Draw(t, "cloned") == 0 {
+			for i, n := range cfg.members {
+				h.names = append(h.names, fmt.Sprintf("n%d", n))
+				cfg.members[i] = h.nn
+				h.nn++
+			}
+			h.class("group_holds_clones")
 		}
 		p := rapid.SampledFrom([]consts.DialerSelectionPolicy{
 			consts.DialerSelectionPolicy_MinLastLatency, consts.DialerSelectionPolicy_MinLastLatency, consts.DialerSelectionPolicy_MinAverage10Latencies,
@@ -582,7 +619,7 @@ func c16CCase(t *rapid.T) {
 	}
 	steps := rapid.IntRange(3, maxSteps).Draw(t, "steps")
 	fdom := rapid.IntRange(0, 5).Draw(t, "focus_dom")
-	events := []string{"forced", "forced", "forced", "kill_all", "kill_all", "traffic_fail", "traffic_ok", "traffic_ok", "fallback", "fallback_lat", "reload", "reload"}
+	events := []string{"forced", "forced", "forced", "kill_all", "kill_group", "kill_group", "traffic_fail", "traffic_ok", "traffic_ok", "fallback", "fallback_lat", "reload", "reload"}
 	for s := 0; s < steps; s++ {
 		ev := rapid.SampledFrom(events).Draw(t, "ev")
 		n := rapid.IntRange(0, h.nn-1).Draw(t, "n")
@@ -604,6 +641,17 @@ func c16CCase(t *rapid.T) {
 				}
 			}
 			h.class("all_nodes_dead_for_a_type")
+		case "kill_group":
+			// every node object of one group dies (clones held by other groups do not).
+			cfg := h.gcfg[rapid.IntRange(0, len(h.gcfg)-1).Draw(t, "kg")]
+			both := rapid.Bool().Draw(t, "other_family_too")
+			for _, x := range cfg.members {
+				h.evForced(x, dom, variant)
+				if both {
+					h.evForced(x, dom^1, variant)
+				}
+			}
+			h.class("all_nodes_of_a_group_dead_for_a_type")
 		case "traffic_fail":
 			thr := 10
 			if dom >= 2 {
